@@ -47,7 +47,7 @@ try:
             if os.path.exists(p): os.remove(p)
     def run_demo():
         place_demo()
-        rc, out = sh("go test -count=1 -vet=off ./%s" % demo_pkg, cwd=wt)
+        rc, out = sh("go test -count=1 -vet=off %s ./%s" % (("-run '%s'" % os.environ["DEMO_RUN"]) if os.environ.get("DEMO_RUN") else "", demo_pkg), cwd=wt)
         remove_demo()
         return rc == 0, out[-1500:]
     # baseline: demo passes without the patch
@@ -58,7 +58,7 @@ try:
     rc, out = sh("go build ./...", cwd=wt)
     meta["builds"] = rc == 0
     tp = sorted(set(["./%s/..." % p for p in pkgs] + extra_tests))
-    rc, out = sh("go test -count=1 -vet=off %s" % " ".join(tp), cwd=wt)
+    rc, out = sh("go test -count=1 -vet=off %s %s" % (("-skip '%s'" % os.environ["SKIP_TESTS"]) if os.environ.get("SKIP_TESTS") else "", " ".join(tp)), cwd=wt)
     meta["existing_tests_pass"] = rc == 0
     if rc != 0:
         meta["existing_tests_log"] = out[-1500:]
